@@ -727,6 +727,25 @@ theorem validateFields_safe : ∀ (n i : Nat) (tbl : Tbl), Safe (validateFields 
       apply Safe.bind (checkAggrFunctionArgs_safe _); intro _
       exact ih _ _
 
+theorem rewriteFieldNames_safe : ∀ (n i : Nat) (tbl : Tbl) (tys : List Nat), Safe (rewriteFieldNames n i tbl tys) := by
+  intro n
+  induction n with
+  | zero => intro i tbl tys; simp [rewriteFieldNames]
+  | succ m ih =>
+    intro i tbl tys
+    unfold rewriteFieldNames
+    split
+    · simp
+    · split
+      · split
+        · split
+          · exact ih _ _ _
+          · apply Safe.bind (rewrite_safe _ _); intro _
+            apply Safe.bind (rt_safe _ _); intro _
+            exact ih _ _ _
+        · exact ih _ _ _
+      · exact ih _ _ _
+
 theorem parseWhere_tot (efuel lfuel spos : Nat) (sel : SelAcc) (wpos : Nat) (ts : Toks)
     (h : ts.length + 1 ≤ lfuel) (he : 8 * ts.length + 4 ≤ efuel) :
     Safe (parseWhere pf efuel lfuel spos sel wpos ts) := by
@@ -737,6 +756,9 @@ theorem parseWhere_tot (efuel lfuel spos : Nat) (sel : SelAcc) (wpos : Nat) (ts 
     apply Res.Holds.bind (parseExpr_tot pf efuel _ he).toS
     rintro ⟨e, ts1⟩ h1
     dsimp only at h1 ⊢
+    apply Safe.bind (rewriteFieldNames_safe _ _ _ _)
+    rintro ⟨tbl1, tys1⟩
+    dsimp only
     apply Safe.bind (clauseLoop_tot pf efuel lfuel lfuel _ ts1 (by lomega) (by lomega) (by lomega))
     intro c
     apply Safe.bind (check_safe _ _); intro _
